@@ -118,7 +118,7 @@ def cfgOf (cfg : Numbered) : Cfg := if cfg.isEmpty then none else some (joinNumb
 def BlockOf (expOk : Line → Bool) (cfg : Numbered) (code : List Line) (t : TestCase Cfg) : Prop :=
   ∃ c0 more after, code = ('$' :: ' ' :: c0) :: (more.map contLine ++ after) ∧ NotCont after ∧
     t.command = c0 :: more ∧ t.expectations = expLines after ∧ t.exitCode = (exitCodes after).head? ∧
-    (exitCodes after).length ≤ 1 ∧ (∀ e ∈ expLines after, expOk e = true) ∧ t.config = some (cfgOf cfg)
+    (exitCodes after).length ≤ 1 ∧ (∀ e ∈ expLines after, expOk e = true ∧ isExitCodeForm e = false) ∧ t.config = some (cfgOf cfg)
 
 theorem exitCodes_cons_some {l : Line} {n : Nat} (r : List Line) (h : extractExitCode l = some n) :
     exitCodes (l :: r) = n :: exitCodes r := by simp [exitCodes, h]
@@ -135,7 +135,7 @@ theorem addAll_after_inv (expOk : Line → Bool) :
       s.inCommand = false → addAll expOk s code = .ok s' →
       s'.command = s.command ∧ s'.expectations = s.expectations ++ expLines (code.map (·.2)) ∧
       s'.exitCode = s.exitCode.or (exitCodes (code.map (·.2))).head? ∧
-      (∀ e ∈ expLines (code.map (·.2)), expOk e = true) ∧
+      (∀ e ∈ expLines (code.map (·.2)), expOk e = true ∧ isExitCodeForm e = false) ∧
       (match s.exitCode with
         | some _ => exitCodes (code.map (·.2)) = []
         | none => (exitCodes (code.map (·.2))).length ≤ 1) ∧
@@ -153,6 +153,10 @@ theorem addAll_after_inv (expOk : Line → Bool) :
     have he : cmd.isEmpty = false := by cases cmd <;> simp_all
     simp only [addAll, State.addBody, he, Bool.or_self, Bool.false_eq_true, if_false,
       State.addBodyRest] at h
+    cases hov : exitCodeOverflows l with
+    | true => simp [hov] at h
+    | false =>
+    simp only [hov, Bool.false_eq_true, if_false] at h
     cases hx : extractExitCode l with
     | some n =>
       simp only [hx] at h
@@ -175,7 +179,8 @@ theorem addAll_after_inv (expOk : Line → Bool) :
         refine ⟨g1, by simpa using g2, g3, ?_, g5, g6, g7, g8, g9, g10⟩
         intro e he'
         rcases List.mem_cons.mp he' with rfl | he'
-        · exact hok
+        · refine ⟨hok, ?_⟩
+          simpa [exitCodeOverflows, hx] using hov
         · exact g4 e he'
       · simp [hok] at h
 
@@ -186,7 +191,7 @@ theorem addAll_conts_inv (expOk : Line → Bool) :
       ∃ more after, code.map (·.2) = more.map contLine ++ after ∧ NotCont after ∧
         s'.command = s.command ++ more ∧ s'.expectations = s.expectations ++ expLines after ∧
         s'.exitCode = s.exitCode.or (exitCodes after).head? ∧
-        (∀ e ∈ expLines after, expOk e = true) ∧
+        (∀ e ∈ expLines after, expOk e = true ∧ isExitCodeForm e = false) ∧
         (match s.exitCode with
           | some _ => exitCodes after = []
           | none => (exitCodes after).length ≤ 1) ∧
@@ -227,7 +232,7 @@ theorem addAll_block_inv (expOk : Line → Bool) (code : Numbered) (s s' : LineP
     (hne : code ≠ []) (h : addAll expOk s code = .ok s') :
     ∃ c0 more after, code.map (·.2) = ('$' :: ' ' :: c0) :: (more.map contLine ++ after) ∧ NotCont after ∧
       s'.command = c0 :: more ∧ s'.expectations = expLines after ∧ s'.exitCode = (exitCodes after).head? ∧
-      (exitCodes after).length ≤ 1 ∧ (∀ e ∈ expLines after, expOk e = true) ∧
+      (exitCodes after).length ≤ 1 ∧ (∀ e ∈ expLines after, expOk e = true ∧ isExitCodeForm e = false) ∧
       s'.testcases = s.testcases ∧ s'.title = s.title ∧ s'.config = s.config ∧
       s'.allowMultipleCommands = false := by
   obtain ⟨tcs, ttl, cmd, ec, exps, ic, amc, osi, cfg⟩ := s
